@@ -191,6 +191,14 @@ class Executor(object):
         acc, raises = self.eval_seq(node.elts, st, fr)
         return [Outcome('normal', s, VList(vs)) for s, vs in acc] + raises
 
+    def e_Dict(self, node, st, fr):
+        """dict literal with constant (int / str) keys, e.g. `{}`: a VDict with statically known keys"""
+        if not all(isinstance(k, ast.Constant) and isinstance(k.value, (int, str)) for k in node.keys):
+            raise Unsupported('dict literal with non-constant keys at line %s' % getattr(node, 'lineno', '?'))
+        acc, raises = self.eval_seq(list(node.values), st, fr)
+        keys = [k.value for k in node.keys]
+        return [Outcome('normal', s, VDict(dict(zip(keys, vs)))) for s, vs in acc] + raises
+
     def e_UnaryOp(self, node, st, fr):
         out = []
         for o in self.eval(node.operand, st, fr):
@@ -310,15 +318,18 @@ class Executor(object):
             st = ok
         if sym == '<<' and not b.is_bv() and not a.is_bv() and b.concrete() is None:
             # symbolic shift amount: case split over 0..64 (an amount that can exceed 64 is unsupported)
-            rest = st
-            for c in range(0, 65):
-                if rest is None:
+            hi = 64
+            for h in (8, 16, 32):                      # narrow the range with a few queries first
+                if not self.feasible(st, b.t > h):
+                    hi = h
                     break
-                t, rest = self.split(rest, b.t == c)
-                if t is not None:
-                    out.append(Outcome('normal', t, int_binop('<<', a, VInt(c))))
-            if rest is not None:
+            if hi == 64 and self.feasible(st, b.t > 64):
                 raise Unsupported('symbolic shift amount not bounded by 64 (line %d)' % getattr(node, 'lineno', 0))
+            for c in range(0, hi + 1):
+                if self.feasible(st, b.t == c):
+                    t = st.fork()
+                    t.assume(b.t == c)
+                    out.append(Outcome('normal', t, int_binop('<<', a, VInt(c))))
             return out
         with collect() as col:
             r = int_binop(sym, a, b)
@@ -936,6 +947,8 @@ class Executor(object):
                 return builtins_model.call_method(self, obj.recv, obj.name, args, kwargs, st, fr, node)
             if isinstance(obj, Closure):
                 return self.call_closure(obj, args, kwargs, st, fr, node)
+            if isinstance(obj, NestedDef):
+                return self.call_nested(obj, args, kwargs, st, fr, node)
             if isinstance(obj, SpecFn):
                 return obj.fn(self, args, kwargs, st, fr, node)
             if inspect.isclass(obj):
@@ -1406,12 +1419,71 @@ class Executor(object):
                     raise Unsupported('del item of %r line %d' % (base, node.lineno))
                 res.extend(m.delitem(self, base, key, s, node))
             return res
+        if len(node.targets) == 1 and isinstance(node.targets[0], ast.Subscript) and \
+                isinstance(node.targets[0].slice, ast.Slice) and isinstance(node.targets[0].value, ast.Name):
+            return self._del_slice_of_name(node, node.targets[0], st, fr)
         for t in node.targets:
             if isinstance(t, ast.Name):
                 st.env.pop(t.id, None)
             else:
                 raise Unsupported('del of non-name line %d' % node.lineno)
         return [Outcome('normal', st)]
+
+    def _del_slice_of_name(self, node, t, st, fr):
+        """`del x[lo:hi]` on a local bytearray/list.  Values have no identity here, so an in-place mutation of
+        an object that is also reachable through another expression must be written back there: accepted only
+        when `x` has exactly one binding in the function, `x = <attribute/subscript path>` (the alias) or
+        `x = <call/literal>` (a fresh object), and -- for an alias -- the path still holds the very same value."""
+        name = t.value.id
+        base = st.env.get(name)
+        sl = t.slice
+        if not isinstance(base, VSeq) or sl.step is not None:
+            raise Unsupported('del of a slice of %r line %d' % (base, node.lineno))
+        fn = fr.fs.node if fr.fs is not None else None
+        if fn is None:
+            raise Unsupported('del slice outside a function')
+        binds, other = [], False
+        for n in ast.walk(fn):
+            if isinstance(n, ast.Assign) and any(isinstance(x, ast.Name) and x.id == name for x in n.targets):
+                if len(n.targets) == 1:
+                    binds.append(n.value)
+                else:
+                    other = True
+            elif isinstance(n, (ast.AugAssign, ast.AnnAssign, ast.For, ast.With, ast.NamedExpr, ast.comprehension)):
+                tg = getattr(n, 'target', None)
+                if tg is not None and name in _target_names(tg):
+                    other = True
+            elif isinstance(n, ast.arg) and n.arg == name:
+                other = True
+        if other or len(binds) != 1:
+            raise Unsupported('del slice of %s: not a single plain binding (line %d)' % (name, node.lineno))
+        origin = binds[0]
+        is_path = isinstance(origin, (ast.Attribute, ast.Subscript)) and \
+            not any(isinstance(x, (ast.Call, ast.Slice)) for x in ast.walk(origin))
+        is_fresh = isinstance(origin, (ast.Call, ast.Constant, ast.List, ast.BinOp))
+        if not (is_path or is_fresh):
+            raise Unsupported('del slice of %s: origin %s (line %d)' % (name, type(origin).__name__, node.lineno))
+        acc, raises = self.eval_seq([p for p in (sl.lower, sl.upper) if p is not None], st, fr)
+        res = list(raises)
+        for (s, vs) in acc:
+            vs = list(vs)
+            lo = vs.pop(0) if sl.lower is not None else None
+            hi = vs.pop(0) if sl.upper is not None else None
+            l, h = norm_slice(base, lo, hi)
+            n_ = slen(base.t)
+            newv = VSeq(smt.s_concat(smt.s_slice(base.t, z3.IntVal(0), l), smt.s_slice(base.t, h, n_)),
+                        base.elem, base.pytype)
+            if is_path:
+                cur = self.eval(_as_load(origin), s.fork(), fr)
+                if len(cur) != 1 or cur[0].kind != 'normal' or not same_value(cur[0].val, base):
+                    raise Unsupported('del slice of %s: alias %s no longer holds the same value (line %d)'
+                                      % (name, ast.unparse(origin), node.lineno))
+                s.env[name] = newv
+                res.extend(self.assign(_as_store(origin), newv, s, fr))
+            else:
+                s.env[name] = newv
+                res.append(Outcome('normal', s))
+        return res
 
     def s_Global(self, node, st, fr):
         raise Unsupported('global statement')
@@ -1791,8 +1863,50 @@ class Executor(object):
         return [Outcome('continue', st)]
 
     def s_FunctionDef(self, node, st, fr):
-        st.env[node.name] = VPy(NestedDef(node, fr))
+        # nested def: free variables are captured by value at definition time.  Python captures by reference,
+        # so this is only right when the enclosing function never rebinds a captured name afterwards (checked
+        # when the nested function is called: see call_nested)
+        st.env[node.name] = VPy(NestedDef(node, fr, dict(st.env)))
         return [Outcome('normal', st)]
+
+    def call_nested(self, nd, args, kwargs, st, fr, node):
+        a = nd.node.args
+        if a.vararg or a.kwarg or a.kwonlyargs or a.defaults or kwargs:
+            raise Unsupported('nested def %s: only plain positional parameters are supported' % nd.node.name)
+        names = [x.arg for x in a.posonlyargs + a.args]
+        if len(args) != len(names):
+            raise Unsupported('nested def %s: arity' % nd.node.name)
+        own = set(names) | _assigned_names(nd.node.body)
+        free = {n.id for n in ast.walk(nd.node) if isinstance(n, ast.Name) and isinstance(n.ctx, ast.Load)} - own
+        encl = nd.fr.fs.node if nd.fr is not None and nd.fr.fs is not None else None
+        if encl is not None:
+            later = [s_ for s_ in ast.walk(encl) if isinstance(s_, ast.stmt) and s_ is not nd.node
+                     and getattr(s_, 'lineno', 0) > nd.node.lineno
+                     and not (nd.node.lineno <= s_.lineno <= getattr(nd.node, 'end_lineno', nd.node.lineno))]
+            rebound = _assigned_names(later) & free
+            if rebound:
+                raise Unsupported('nested def %s: captured name(s) %s rebound after the definition'
+                                  % (nd.node.name, sorted(rebound)))
+        if fr.depth > 12:
+            raise Unsupported('inline depth')
+        env = dict(nd.env or {})
+        env.update(zip(names, args))
+        saved = st.env
+        st.env = env
+        nf = Frame(nd.fr.fs if nd.fr is not None else None, None, fr.depth + 1)
+        outs = self.exec_block(source.strip_docstring(nd.node.body), st, nf)
+        res = []
+        for o in outs:
+            o.st.env = dict(saved)
+            if o.kind == 'normal':
+                res.append(Outcome('normal', o.st, VNone()))
+            elif o.kind == 'return':
+                res.append(Outcome('normal', o.st, o.val))
+            elif o.kind == 'raise':
+                res.append(o)
+            else:
+                raise Unsupported('break/continue leaking from nested def %s' % nd.node.name)
+        return res
 
 
 # ---------------------------------------------------------------- helper objs
@@ -1824,9 +1938,10 @@ class Closure(object):
 
 
 class NestedDef(object):
-    def __init__(self, node, fr):
+    def __init__(self, node, fr, env=None):
         self.node = node
         self.fr = fr
+        self.env = env
 
 
 class SpecFn(object):
